@@ -15,7 +15,7 @@ import (
 // after a successful refresh the session carries the tokens the provider just issued (access
 // token, rotated refresh token, ID token and identity when one came back); a failed refresh
 // leaves the session exactly as it was
-// verif: unwind=8 strlen=8 also=C14
+// verif: unwind=8 strlen=8 also=C14,C04
 func vh_C12_oidc_refresh() {
 	newAT := ndString("new-access-token")
 	newRT := ndString("new-refresh-token")
@@ -23,6 +23,10 @@ func vh_C12_oidc_refresh() {
 	hasRT := ndBool("response-has-refresh-token")
 	hasIDT := ndBool("response-has-id-token")
 	claims := map[string]interface{}{"sub": "someone", "email": "new@b.c", "email_verified": true}
+	newHasGroups := ndBool("new-token-has-groups")
+	if newHasGroups {
+		claims["groups"] = []interface{}{"new-group"}
+	}
 	tok := verifIDToken(claims)
 	body := map[string]interface{}{"access_token": newAT, "token_type": "bearer", "expires_in": float64(3600)}
 	if hasRT {
@@ -59,7 +63,7 @@ func vh_C12_oidc_refresh() {
 	ver := &vVerifier{}
 	p := &OIDCProvider{ProviderData: &ProviderData{Verifier: ver, RedeemURL: ru, ClientID: "client", ClientSecret: "secret",
 		EmailClaim: options.OIDCEmailClaim, UserClaim: "sub", GroupsClaim: "groups"}}
-	s := &sessions.SessionState{AccessToken: "old-at", RefreshToken: "old-rt", IDToken: "old-idt", Email: "old@b.c", User: "old-user"}
+	s := &sessions.SessionState{AccessToken: "old-at", RefreshToken: "old-rt", IDToken: "old-idt", Email: "old@b.c", User: "old-user", Groups: []string{"old-group"}}
 	refreshed, err := p.RefreshSession(context.Background(), s)
 	if refreshed && err == nil {
 		verifReach("refreshed")
@@ -73,9 +77,15 @@ func vh_C12_oidc_refresh() {
 		}
 		if hasIDT {
 			verifAssert("C12.oidc.new-id-token-and-identity-in-session", s.IDToken == tok && s.Email == "new@b.c" && s.User == "someone")
+			// the groups are those of the token now in the session, not of the one it replaced
+			if newHasGroups {
+				verifAssert("C04.oidc.groups-from-the-refreshed-token", len(s.Groups) == 1 && s.Groups[0] == "new-group")
+			} else {
+				verifAssert("C04.oidc.groups-from-the-refreshed-token", len(s.Groups) == 0)
+			}
 		} else {
 			verifReach("no-id-token")
-			verifAssert("C12.oidc.identity-kept-without-id-token", s.IDToken == "old-idt" && s.Email == "old@b.c" && s.User == "old-user")
+			verifAssert("C12.oidc.identity-kept-without-id-token", s.IDToken == "old-idt" && s.Email == "old@b.c" && s.User == "old-user" && len(s.Groups) == 1 && s.Groups[0] == "old-group")
 		}
 		verifAssert("C12.oidc.restamped", s.CreatedAt != nil)
 	} else {
